@@ -16,8 +16,11 @@ ap.add_argument("--seed", default="0")
 ap.add_argument("--shard", help="i/n: evaluate every n-th change starting at i, results in RESULTS.<i>.json (merge with --merge)")
 ap.add_argument("--merge", action="store_true", help="merge RESULTS.<i>.json shards into RESULTS.json and rewrite RESULTS.md")
 a = ap.parse_args()
-root = "/verif/seeded"
-res_path = os.path.join(root, "RESULTS.json")
+VERIF = os.path.dirname(os.path.dirname(os.path.abspath(__file__)))
+root = os.path.join(VERIF, "seeded")
+if os.environ.get("SEEDED_RESULTS_DIR"):      # results elsewhere (evaluation from a snapshot)
+    os.makedirs(os.environ["SEEDED_RESULTS_DIR"], exist_ok=True)
+res_path = os.path.join(os.environ.get("SEEDED_RESULTS_DIR") or root, "RESULTS.json")
 results = json.load(open(res_path)) if os.path.exists(res_path) else {}
 ids = sorted(d for d in os.listdir(root) if os.path.isdir(os.path.join(root, d)))
 if a.only:
@@ -25,7 +28,7 @@ if a.only:
 if a.shard:
     si, sn = (int(x) for x in a.shard.split("/"))
     ids = ids[si::sn]
-    res_path = os.path.join(root, "RESULTS.%d.json" % si)
+    res_path = os.path.join(os.environ.get("SEEDED_RESULTS_DIR") or root, "RESULTS.%d.json" % si)
     shard_results = json.load(open(res_path)) if os.path.exists(res_path) else {}
 if a.merge:
     import glob
@@ -38,7 +41,7 @@ if a.merge:
 for i in ids:
     meta = json.load(open(os.path.join(root, i, "meta.json")))
     checks = a.checks or ",".join(meta.get("checks", [meta["property"]]))
-    p = subprocess.run(["/verif/tools/mutcheck.py", "--patch", os.path.join(root, i, "patch.diff"), "--checks", checks,
+    p = subprocess.run([os.path.join(VERIF, "tools", "mutcheck.py"), "--patch", os.path.join(root, i, "patch.diff"), "--checks", checks,
                         "--tier", a.tier, "--seed", a.seed], capture_output=True, text=True)
     m = re.search(r"RESULT (\{.*\})", p.stdout)
     rcs = eval(m.group(1)) if m else {"error": p.stdout[-500:] + p.stderr[-500:]}
